@@ -281,7 +281,9 @@ func execC01(body json.RawMessage) *kernel.Result {
 					env.Run()
 				}
 			case "eval":
-				env.EvalString(sc.Text)
+				if v, err := env.EvalString(sc.Text); err == nil && v != nil {
+					_ = v.SexpString(nil) // print the value, as the REPL does
+				}
 			case "evalexprs":
 				p := env.VerifParser()
 				p.ResetAddNewInput(strings.NewReader(sc.Text))
@@ -346,7 +348,13 @@ func execC01(body json.RawMessage) *kernel.Result {
 			o := guardAll(func() {
 				kernel.SetBudget(sc.Budget)
 				defer kernel.SetBudget(-1)
-				env.EvalString(t + " ")
+				v, err := env.EvalString(t + " ")
+				// what every client does next: print the value (as the REPL does) or the error with its trace
+				if err == nil && v != nil {
+					_ = v.SexpString(nil)
+				} else if err != nil {
+					_ = env.GetStackTrace(err)
+				}
 			})
 			res.Sig("call|" + headOf(t))
 			if o.budget {
@@ -489,9 +497,9 @@ func genC01Text(r *kernel.RNG, tier string, i int) interface{} {
 }
 
 var c01ArgPool = []string{
-	"0", "1", "-1", "2", "7", "1000000", "9223372036854775807", "-9223372036854775808", "1.5", "-0.0", "NaN", "1e308", "3ULL",
+	"0", "1", "-1", "2", "7", "3000", "9223372036854775807", "-9223372036854775808", "1.5", "-0.0", "NaN", "1e308", "3ULL",
 	`""`, `"a"`, `"abc"`, "`raw`", `"%s %d"`, `"["`, "'c'", "nil", "true", "false",
-	"[]", "[1 2 3]", `["a" "b"]`, "[[1] [2]]", "(list)", "(list 1 2)", "(quote (a . b))", "(hash)", "(hash a: 1)", "(hash a: (hash b: 2))",
+	"[]", "[1 2 3]", `["a" "b"]`, "[[1] [2]]", "(list)", "(list 1 2)", "(quote (a \\ b))", "(quote (a b \\ c))", "(cons 1 2)", "(cons 1 (cons 2 3))", "(cons (list 1) 2)", "(hash)", "(hash a: 1)", "(hash a: (hash b: 2))",
 	"%sym", "%a.b", "(quote ())", "(fn [x] x)", "(fn [] 1)", "+", "hget", "(raw)", "(now)", "(& 1)", "(array 3)", "{}", "a:", ":=", "=",
 	// values that contain themselves
 	"(let [cy (hash)] (hset cy self: cy) cy)", "(let [ca [1 2]] (aset ca 0 ca) ca)", "(let [cb [1] ch (hash)] (hset ch arr: cb) (aset cb 0 ch) cb)",
@@ -564,6 +572,53 @@ func genC01Calls(r *kernel.RNG, tier string, i int) interface{} {
 			t = "[" + t + " " + t + "]"
 		}
 		sc.Texts = append(sc.Texts, t)
+	}
+	return sc
+}
+
+var c01Containers = []string{"[1 2 3]", "[]", `"abc"`, `""`, "(hash a: 1 b: 2)", "(hash)", "(list 1 2 3)", "[[1 2] [3 4]]", "(raw)", "nil", "5", "(hash 0 10 1 11)", `["a" "b"]`, "[1.5 2.5]"}
+var c01Indexes = []string{"0", "1", "2", "3", "-1", "-2", "4", "100", "9223372036854775807", "-9223372036854775808", "1.5", `"x"`, "nil", "%a", "a:", "[0]", "[0 1]", "true", "'c'", "(+ 1 1)", "1ULL"}
+
+// genC01Index: reads, writes and slices of containers at boundary and ill-typed indexes, in prefix and infix syntax
+// (index assignment is compiled to its own VM instruction, outside the recover() that protects builtin functions)
+func genC01Index(r *kernel.RNG, tier string, i int) interface{} {
+	sc := &c01Scenario{Kind: "calls", Budget: 50000}
+	for j := 0; j < 24; j++ {
+		c := r.Pick(c01Containers)
+		ix, iy, v := r.Pick(c01Indexes), r.Pick(c01Indexes), r.Pick(c01ArgPool)
+		sc.Texts = append(sc.Texts, "(def cx "+c+")")
+		var t string
+		switch r.Intn(14) {
+		case 0:
+			t = fmt.Sprintf("{cx[%s] = %s}", ix, v)
+		case 1:
+			t = fmt.Sprintf("{cx[%s]}", ix)
+		case 2:
+			t = fmt.Sprintf("{cx[%s:%s]}", ix, iy)
+		case 3:
+			t = fmt.Sprintf("{cx[%s:]}", ix)
+		case 4:
+			t = fmt.Sprintf("{cx[:%s]}", ix)
+		case 5:
+			t = fmt.Sprintf("(aset cx %s %s)", ix, v)
+		case 6:
+			t = fmt.Sprintf("(aget cx %s)", ix)
+		case 7:
+			t = fmt.Sprintf("(set (arrayidx cx [%s]) %s)", ix, v)
+		case 8:
+			t = fmt.Sprintf("{cx[%s][%s] = %s}", ix, iy, v)
+		case 9:
+			t = fmt.Sprintf("{cx[%s] = %s; cx}", ix, v)
+		case 10:
+			t = fmt.Sprintf("(slice cx %s %s)", ix, iy)
+		case 11:
+			t = fmt.Sprintf("{cx.%s = %s}", strings.Trim(ix, "%:\"[]'"), v)
+		case 12:
+			t = fmt.Sprintf("(hset cx %s %s)", ix, v)
+		case 13:
+			t = fmt.Sprintf("{cx[%s] += 1}", ix)
+		}
+		sc.Texts = append(sc.Texts, t, "(str cx)")
 	}
 	return sc
 }
@@ -656,7 +711,7 @@ func init() {
 		Level:    "exploration",
 		Rule: "fault-facing part of C01. (a) texts (corpus chunks, generated token-alphabet texts, generated programs) delivered over a faulty transport - truncated at an arbitrary byte, bytes flipped/replaced with bias to delimiters and quotes, chunks dropped at token or byte boundaries, duplicated, swapped, forms emptied ((and) (let) (for) ...), invalid UTF-8 inserted, reader failing at rune k - " +
 			"through every script-facing entry point: ParseTokens, LoadString+Run, EvalString, EvalExpressions, macexpand, infixExpand, the REPL reader plus the REPL's evaluation path, LoadStream/LoadFile over a failing reader, and in-process ReplMain with -c / script file / stdin (with and without -sandbox); then Clear+next evaluation and Close. " +
-			"(b) the name universe read from the interpreter x 0-4 arguments from a pool of ill-typed/boundary values (wrong arities, out-of-range indices, malformed and empty special forms). (c) host-call faults (error, Go panic) at every call point of generated programs. " +
+			"(b) the name universe read from the interpreter x 0-4 arguments from a pool of ill-typed/boundary values (wrong arities, out-of-range indices, malformed and empty special forms, values that contain themselves, improper lists), every returned value printed as the REPL does; reads, writes and slices of containers at boundary and ill-typed indexes in prefix and infix syntax. (c) host-call faults (error, Go panic) at every call point of generated programs. " +
 			"Oracle: no Go panic reaches the harness's recover, the worker process survives, the call returns within the step budget or is classified unbounded. distinct_nontrivial counts distinct (entry point, fault kinds) / (called name) / (fault kind, depth, route) signatures.",
 		Components: map[string][]string{
 			"real": {"lexer", "parser", "generator", "VM", "builtins", "REPL reader and loop", "ReplMain/runScript"},
@@ -671,6 +726,7 @@ func init() {
 		Parts: []*kernel.Part{
 			{Name: "damaged-text", Count: cnt(6000, 200000), Generate: genC01Text, Execute: execC01, Shrink: shrinkC01},
 			{Name: "ill-typed-calls", Count: cnt(1200, 30000), Generate: genC01Calls, Execute: execC01, Shrink: shrinkC01},
+			{Name: "indexing", Count: cnt(500, 15000), Generate: genC01Index, Execute: execC01, Shrink: shrinkC01},
 			{Name: "cli", Count: cnt(600, 12000), Generate: genC01Cli, Execute: execC01, Shrink: shrinkC01, Isolated: true},
 			vmPart,
 		},
